@@ -12,9 +12,10 @@ from pyvc import lists as L
 from pyvc.engine import ListV, ObjV, PathEnd, PyRaise, Unsupported
 from pyvc.lists import LConc, lift, simp_int, zint
 from pyvc.spec import Bool, Clause, Const, Int, Inv, Model, NoneT, OneOf, S, contract
-from pyvc.xmlmodel import (KIND_OF_MAP, MAP_OF_KIND, VaultView, WrapView, before, detached, inv_vault,
-                           item_classes, item_maker, make_idx, make_wrapper, pointwise, vault_maker, vlen,
-                           xstate)
+from pyvc.xmlmodel import (KIND_OF_MAP, MAP_OF_KIND, VaultView, WrapView, before, cache_reset, detached,
+                           exists_before, fits, inv_vault, is_fresh, item_classes, item_maker, make_idx,
+                           make_wrapper, pointwise, vault_maker, vlen, xstate)
+from pyvc.xmlnative import concretize_vault, gen_vault
 
 P_VAULT = {"C01", "C02", "C07"}
 
@@ -207,7 +208,7 @@ def _req_common(a, need_item=True):
     kind = _kind(a)
     c = [inv_vault(a.vault, kind), 0 <= a.position, a.position < vlen(a.vault, kind)]
     if need_item:
-        c += [detached(a.vault, kind, a.item), 0 <= a.item.node, a.item.node < a.item.N0]
+        c += [detached(a.vault, kind, a.item), exists_before(a.item)]
     return S.And(*c)
 
 
@@ -216,7 +217,7 @@ def _set_view(a, r, p):
     rep = _eff(a.item)
     new_pl = a.item.pl
     return pointwise(a.vault, p.vault, kind,
-                     lambda pos, old, len0: z3.If(z3.And(a.position <= pos, pos < a.position + rep), new_pl, old))
+                     lambda pos, old, len0: S.If(S.And(a.position <= pos, pos < a.position + rep), new_pl, old))
 
 
 def _set_len(a, r, p):
@@ -227,28 +228,20 @@ def _set_len(a, r, p):
 
 
 def _cache_reset(a, r, p):
-    mname = a.vault_map_name
-    i = z3.FreshInt("i")
-    return z3.ForAll([i], p.vault.cache(mname, i) == -1)
+    return cache_reset(p.vault, a.vault_map_name)
 
 
 def _fits(a):
-    """the new item does not reach beyond the run it is set into (stated universally: for the run
-    containing `position`)"""
-    m = a.vault.map(a.vault_map_name)
-    i = z3.FreshInt("i")
-    mi = m[i]
-    return z3.ForAll([i], z3.Implies(
-        z3.And(0 <= i, i < zint(m.n), a.position <= mi, z3.Implies(i > 0, m[i - 1] < a.position)),
-        a.position + _eff(a.item) - 1 <= mi), patterns=[mi])
+    return fits(a.vault, a.vault_map_name, a.position, _eff(a.item))
 
 
 if True:
     contract(
         "odfdo.element_cached:set_item_in_vault",
-        sig=[dict(position=Int, **_vault_sig(_k), clone=Bool) for _k in ("cells",)],
+        sig=[dict(position=Int, **_vault_sig(_k), clone=Bool) for _k in ("cells", "rows", "cols")],
         requires=lambda a: _req_common(a),
-        cases={"fits": _fits, "overlap": lambda a: z3.Not(_fits(a))},
+        cases={"fits": _fits, "overlap": lambda a: S.Not(_fits(a))},
+        concretize=concretize_vault, gen=gen_vault,
         ensures=[
             Clause("inv", {"C01", "C02", "C07"}, lambda a, r, p: inv_vault(p.vault, _kind(a))),
             Clause("view", {"C01", "C02"}, _set_view),
@@ -257,3 +250,53 @@ if True:
         ],
         unroll=3,
     )
+
+
+def _ins_view(a, r, p):
+    kind = _kind(a)
+    rep = _eff(a.item)
+    new_pl = a.item.pl
+    return pointwise(a.vault, p.vault, kind,
+                     lambda pos, old, len0: S.If(S.And(a.position <= pos, pos < a.position + rep), new_pl, old),
+                     src=lambda pos: S.If(pos < a.position, pos, pos - rep))
+
+
+def _item_untouched(a, r, p):
+    return S.And(p.item.rep == a.item.rep, p.item.pl == a.item.pl)
+
+
+contract(
+    "odfdo.element_cached:insert_item_in_vault",
+    sig=[dict(position=Int, **_vault_sig(_k)) for _k in ("cells", "rows", "cols")],
+    requires=lambda a: _req_common(a),
+    ensures=[
+        Clause("inv", {"C01", "C02", "C07"}, lambda a, r, p: inv_vault(p.vault, _kind(a))),
+        Clause("view", {"C01", "C02"}, _ins_view),
+        Clause("len", {"C01", "C07"}, lambda a, r, p: vlen(p.vault, _kind(a)) == vlen(a.vault, _kind(a)) + _eff(a.item)),
+        Clause("cache-reset", {"C02"}, _cache_reset),
+        Clause("arg-untouched", {"C08", "C10"}, _item_untouched),
+        Clause("result", {"C08"}, lambda a, r, p: S.And(r.pl == a.item.pl, r.rep == a.item.rep,
+                                                          is_fresh(r, a.vault, a.item))),
+    ],
+    concretize=concretize_vault, gen=gen_vault,
+)
+
+
+def _del_view(a, r, p):
+    kind = _kind(a)
+    return pointwise(a.vault, p.vault, kind, lambda pos, old, len0: old,
+                     src=lambda pos: S.If(pos < a.position, pos, pos + 1))
+
+
+contract(
+    "odfdo.element_cached:delete_item_in_vault",
+    sig=[{k: v for k, v in dict(position=Int, **_vault_sig(_k)).items() if k != "item"} for _k in ("cells", "rows", "cols")],
+    requires=lambda a: _req_common(a, need_item=False),
+    ensures=[
+        Clause("inv", {"C01", "C02", "C07"}, lambda a, r, p: inv_vault(p.vault, _kind(a))),
+        Clause("view", {"C01", "C02"}, _del_view),
+        Clause("len", {"C01", "C07"}, lambda a, r, p: vlen(p.vault, _kind(a)) == vlen(a.vault, _kind(a)) - 1),
+        Clause("cache-reset", {"C02"}, _cache_reset),
+    ],
+    concretize=concretize_vault, gen=gen_vault,
+)
